@@ -145,15 +145,15 @@ for _n, _st in [("normal_pawn_quiet", "pawn push"), ("normal_pawn_capture", "paw
                 ("normal_piece_capture", "piece capture")]:
     ob("c20_record_" + _n, "chess::move_struct::verif_move::c20_record_" + _n, ["C20"],
        f"forall piece, start != end, captured ({_st} case of a 4-way partition): pgn_notation(Normal) == [letter] origin-file [x] destination",
-       _F20, timeout=600)
+       _F20, timeout=1800)
 for _n in ["quiet", "capture"]:
     ob("c20_record_promotion_" + _n, "chess::move_struct::verif_move::c20_record_promotion_" + _n, ["C20"],
        f"forall owner, new_piece in QRBN, start, end, captured ({_n} case): pgn_notation(Promotion) == origin-file [x] destination = piece",
-       _F20, timeout=600)
-ob("c20_record_castling_short", "chess::move_struct::verif_move::c20_record_castling_short", ["C20"], "O-O for either owner", _F20, timeout=300)
-ob("c20_record_castling_long", "chess::move_struct::verif_move::c20_record_castling_long", ["C20"], "O-O-O for either owner", _F20, timeout=300)
+       _F20, timeout=1800)
+ob("c20_record_castling_short", "chess::move_struct::verif_move::c20_record_castling_short", ["C20"], "O-O for either owner", _F20, timeout=900)
+ob("c20_record_castling_long", "chess::move_struct::verif_move::c20_record_castling_long", ["C20"], "O-O-O for either owner", _F20, timeout=900)
 ob("c20_record_enpassant", "chess::move_struct::verif_move::c20_record_enpassant", ["C20"],
-   "e.p. as origin-file x destination-file rank(6|3) for every owner / file pair", _F20, timeout=600)
+   "e.p. as origin-file x destination-file rank(6|3) for every owner / file pair", _F20, timeout=1500)
 
 # =================================================================================================
 # C02 -- playing a move produces the prescribed position
@@ -197,7 +197,7 @@ for _k in ["normal", "promotion", "enpassant", "castling_short", "castling_long"
 _FSET = ["Game::set_position", "Piece::score", "Piece::hash", "Piece::as_index", "Position::as_usize", "Position::new_unsafe"]
 ob("set_position_contract", "chess::verif_chess::set_position_contract", ["C02", "C03", "C04", "C15", "C16"],
    "forall game, square p, content: board/cached key/cached score at p become new/key(p,new)/sq_score(p,new); hash and score move by (old cached) -> (new); frame",
-   _FSET, timeout=600)
+   _FSET, timeout=1500)
 for _k in ["normal", "promotion"]:
     for _part, _txt in [("board", "board at any square, king cache, side, stack length and entries, tables"),
                         ("keys", "cached square key at any square"), ("scores", "cached square score at any square")]:
@@ -217,7 +217,7 @@ for _k in ["normal", "promotion", "enpassant", "castling_short", "castling_long"
        ["Game::push", "Game::pop", "GameState::hash"], timeout=600)
 ob("update_phase_contract", "chess::verif_chess::update_phase_contract", ["C03", "C16"],
    "forall game (WF1, WF2 at kings and any j), any is_endgame answer: cached scores consistent with the tables in force afterwards; score == SUM preserved; position/hash untouched",
-   ["Game::update_phase"], timeout=600, witness="chess::verif_chess::witness_d1_endgame_score_drift")
+   ["Game::update_phase"], timeout=1800, witness="chess::verif_chess::witness_d1_endgame_score_drift")
 ob("piece_score_is_table_value", "chess::piece::verif_piece::piece_score_is_table_value", ["C16", "C15"],
    "Piece::score == spec sq_score for 12 pieces x 64 squares x 2 king tables; unchecked read in bounds", ["Piece::score", "Position::new_unsafe"], timeout=300)
 ob("piece_score_mirror_negates", "chess::piece::verif_piece::piece_score_mirror_negates", ["C16"],
@@ -244,7 +244,7 @@ prop("C16",
 
 ob("keys_tables_match_published_layout", "chess::verif_chess::keys_tables_match_published_layout", ["C04", "C05"],
    "zobrist::{BLACK_TO_MOVE,EMPTY_PLACE,STATE[256],PIECE[64][12]} == little-endian u64 of zobrist_bytes.bin at offsets 0, 1, 2+8i, 259+8(12 sq+p)",
-   ["zobrist::get_random_nums", "zobrist consts"], timeout=600)
+   ["zobrist::get_random_nums", "zobrist consts"], timeout=1500)
 ob("spec_start_position_hash", "chess::verif_chess::spec_start_position_hash", ["C04"],
    "published keys of the start position combine to D9C54592621D7040", ["spec::hash_of"], timeout=300)
 ob("c05_square_keys_distinct", "chess::verif_chess::c05_square_keys_distinct", ["C05"],
@@ -367,7 +367,7 @@ prop("C12",
      not_machine_checked=["command_position: tokenisation, `for move_str` header, startpos/fen dispatch"])
 _F12 = ["Move::uci_notation", "Move::from_uci_notation"]
 for _k in ["normal", "promotion", "enpassant", "castling_short", "castling_long"]:
-    ob("c12_print_" + _k, "chess::move_struct::verif_move::c12_print_" + _k, ["C12"], f"uci_notation == standard text, every {_k} move value", _F12, timeout=900)
+    ob("c12_print_" + _k, "chess::move_struct::verif_move::c12_print_" + _k, ["C12"], f"uci_notation == standard text, every {_k} move value", _F12, timeout=2400)
     ob("c12_roundtrip_" + _k, "chess::move_struct::verif_move::c12_roundtrip_" + _k, ["C12"],
        f"forall position, acceptable {_k} move m: from_uci_notation(text(m), g) == Some(m)", _F12, timeout=900)
 for _n in ["4", "5", "6"]:
@@ -376,7 +376,7 @@ for _n in ["4", "5", "6"]:
 ob("c12_short_strings_rejected", "chess::move_struct::verif_move::c12_short_strings_rejected", ["C12"], "strings of 0..3 bytes are rejected", _F12, timeout=300)
 ob("position_step_contract", "uci::verif_uci::position_step_contract", ["C12", "C15"],
    "slice verif_position_step vs abstract parser/generator/push_history: played iff parsed and member of the checked list (exactly once, that move); else error, nothing played; length guard at 400",
-   ["uci::command_position (per-move step)"], timeout=900)
+   ["uci::command_position (per-move step)"], timeout=2400)
 
 # =================================================================================================
 # C17 -- FEN import is faithful and rejects malformed text without crashing
@@ -400,16 +400,16 @@ prop("C17",
 _F17 = ["Game::new (slices)", "Piece::from_char_ascii", "Position::new_assert", "GameState::set_*"]
 ob("fen_step_contract", "chess::verif_chess::fen::fen_step_contract", ["C17", "C04", "C16", "C15"],
    "scanner step, all chars x all (row,col): no panic; Ok => on board, character well-formed in context, exactly its squares written with published key / piece-square value, totals in step",
-   _F17, timeout=1800)
+   _F17, timeout=3600)
 for _n in ["1", "2", "3"]:
-    ob("fen_side_" + _n, "chess::verif_chess::fen::fen_side_" + _n, ["C17"], f"side field, all {_n}-byte ASCII strings: Ok iff exactly `w` / `b`, value as written", _F17, timeout=900)
+    ob("fen_side_" + _n, "chess::verif_chess::fen::fen_side_" + _n, ["C17"], f"side field, all {_n}-byte ASCII strings: Ok iff exactly `w` / `b`, value as written", _F17, timeout=2400)
     ob("fen_ep_" + _n, "chess::verif_chess::fen::fen_ep_" + _n, ["C17", "C15"],
-       f"e.p. field, all {_n}-byte ASCII strings x side x rights: no panic; Ok iff `-` or file a..h + rank 6/3 for the side to move; file as written; rights untouched", _F17, timeout=900)
+       f"e.p. field, all {_n}-byte ASCII strings x side x rights: no panic; Ok iff `-` or file a..h + rank 6/3 for the side to move; file as written; rights untouched", _F17, timeout=2400)
 for _n in ["1", "2", "3", "4", "5"]:
     ob("fen_castling_" + _n, "chess::verif_chess::fen::fen_castling_" + _n, ["C17"],
-       f"castling field, all {_n}-byte ASCII strings: Ok iff `-` or distinct letters of KQkq; rights == letters; e.p. nibble untouched", _F17, timeout=900)
+       f"castling field, all {_n}-byte ASCII strings: Ok iff `-` or distinct letters of KQkq; rights == letters; e.p. nibble untouched", _F17, timeout=2400)
 ob("fen_tail_contract", "chess::verif_chess::fen::fen_tail_contract", ["C17", "C04"],
-   "tail of Game::new: both kings required; game carries scanned board/caches/totals/side; one state entry; hash ^= state key; king cache = scanned king squares", _F17, timeout=900)
+   "tail of Game::new: both kings required; game carries scanned board/caches/totals/side; one state entry; hash ^= state key; king cache = scanned king squares", _F17, timeout=2400)
 ob("piece_letters_roundtrip", "chess::piece::verif_piece::piece_letters_roundtrip", ["C17", "C11"],
    "as_char_ascii is the FEN letter; from_char_ascii inverts it and accepts exactly the 12 letters among all chars", ["Piece::as_char_ascii", "Piece::from_char_ascii"], timeout=300)
 
